@@ -13,7 +13,7 @@ def sig_certificate(ck, recs):
     """Per case: the extracted `sig_check`, applied to the document the IMPLEMENTATION built (dumped by the harness; K3 renders the same dump), says that it carries exactly the signature of the source
     tree (its text minus blanks and the delimiters ( ) [ ] { } $ , ; :) along the flat branches and that both branches of
     every flat_alt agree; by C01_every_layout_has_the_signature this holds of every layout of that document, at every
-    width. Cases outside `sig_scope` (exotic blanks, a comment between `not` and `in`) and with import reordering on are
+    width. Cases outside `sig_scope` (non-ASCII blanks inside a node that is printed verbatim or inside a comment, a comment between `not` and `in`) and with import reordering on are
     not judged."""
     ok = [r for r in recs if r.get("k") and r["k"].get("impl") == "ok" and r["reorder"] == 0]
     inscope = [r for r in ok if r["k"].get("impl_sig") is not None]
